@@ -267,20 +267,41 @@ def check(env, rep, tier):
             subst = prog.body_subst(b, gargs)
             args = [I.mat(st, prog.ty(b["locals"][i + 1]["ty"], subst), "a%d" % i) for i in range(b["arg_count"])]
 
+            # what the raw accessor itself does to the map: a setter replaces the whole list, an adder appends, a getter looks up
+            MAPOPS = {"packet::Packet::set_option": ("insert",), "packet::Packet::add_option": ("entry", "get_mut", "insert"),
+                      "packet::Packet::get_option": ("get",), "packet::Packet::get_first_option": ("get",)}
+            RAWS = ("packet::Packet::add_option", "packet::Packet::set_option", "packet::Packet::get_option",
+                    "packet::Packet::get_first_option")
+            opt_i = [i for i, f in enumerate(prog.adts["packet::Packet"]["variants"][0]["fields"]) if f["name"] == "options"]
+            map_place = args[0].place.extend(("f", opt_i[0])) if isinstance(args[0], RefV) and opt_i else None
+            conv_bad = []
+
             def hook(I_, s, call, cbody, seen=seen, raw=raw):
-                if call.path == raw:
+                if call.path in RAWS:
                     seen.append(call.args[1] if len(call.args) > 1 else None)
                     s.ghost["reached-raw"] = True
+                elif call.path in ("packet::<impl core::convert::From<packet::CoapOption> for u16>::from",) \
+                        or (call.path in ("<T as core::convert::Into<U>>::into",) and call.args and isinstance(call.args[0], EnumV) and call.args[0].path == "packet::CoapOption"):
+                    # the raw accessors spelled out in place: the key of the map operation is this option's number
+                    if call.args and call.args[0] == args[1]:
+                        s.ghost["own-number"] = True
+                    else:
+                        conv_bad.append(call.site)
+                elif "collections::btree::map::BTreeMap" in call.path and call.name in MAPOPS[raw] \
+                        and call.args and isinstance(call.args[0], RefV) and map_place is not None and call.args[0].place == map_place:
+                    if s.ghost.get("own-number"):
+                        s.ghost["reached-raw"] = True
+                        seen.append(args[1])
             I.call_hooks.append(hook)
             I, res = run(prog, b, args=args, st=st, I=I, gargs=gargs)
-            ok = len(seen) >= 1 and all(x == args[1] for x in seen)
+            ok = len(seen) >= 1 and all(x == args[1] for x in seen) and not conv_bad
             # ... on every path: a shortcut that returns without going through the raw accessor stores / reads something else
             every = bool(res) and all(s_.ghost.get("reached-raw") for s_, _ in res)
             rep.ob("C06.6", entry + "|every-path", every,
-                   "%s has a path that returns without going through %s (a fast path keeps or builds the stored list by other means: "
+                   "%s has a path that returns without going through a raw accessor such as %s - or the option map itself under this option's number (a fast path keeps or builds the stored list by other means: "
                    "stale elements can survive, or values bypass the typed encoding)" % (entry, raw),
                    {"file": b["span"]["f"], "line": b["span"]["l"], "fn": entry})
-            rep.ob("C06.6", entry, ok, "%s does not reach %s with its own option number" % (entry, raw),
+            rep.ob("C06.6", entry, ok, "%s does not reach the raw option state (%s or the option map) with its own option number" % (entry, raw),
                    {"file": b["span"]["f"], "line": b["span"]["l"], "fn": entry})
 
         # ---- C06.7 the numeric convenience accessors hand the number over unchanged
